@@ -10,19 +10,20 @@ Tolerance rule (documented in the evidence as `compare: "tol"`):
     rounding, which the recurrence amplifies (strongly after a super-linear collapse of the residual
     on clustered spectra).  Iterates are compared column-wise in the 2-norm,
     `|x_real - x_model| <= T * max(|x_real|, |x_model|, |x0|)` with
-    `T = max(RT, 100 * d_self)`, `RT = 1e-8 * max(1, kappa(A) * kappa(P) / 1e3)` (the rule asked for:
+    `T = max(RT, 300 * d_self)`, `RT = 1e-8 * max(1, kappa(A) * kappa(P) / 1e3)` (the rule asked for:
     1e-8 at kappa <= 1e3) and `d_self` = the deviation MEASURED on the same input and the same k
-    between the real run and two rounding-equivalent real runs (product summed in reverse order;
-    entries of A and P moved by one ulp).  d_self is what double rounding permits on this input; a
-    defect of the code is present in all three real runs and does not enlarge it;
+    between the real run and four rounding-equivalent real runs (product summed in reverse order;
+    three draws of "entries of A and P moved by one ulp"), maximised over the columns and over steps
+    k, k+1, k+2 (the amplification grows with k).  d_self is what double rounding permits on this input; a defect of
+    the code is present in all the real runs and does not enlarge it;
   * tracked residuals (`info['errors']`) are compared entry-wise with the relative tolerance
-    `max(10 * RT, 100 * d_self(entry))`; entries below `1e-10 * e0` (e0 = first tracked residual) are
+    `max(10 * RT, 300 * d_self(entry))`; entries below `1e-10 * e0` (e0 = first tracked residual) are
     rounding noise and only required to be `<= 1e-6 * e0` on both sides;
   * a difference in the step count is accepted as a knife edge iff the rounding-equivalent real runs
     disagree among themselves at that max_iters, or at the disputed step a column's residual norm is
     within a relative 1e-6 of its effective tolerance, or the tracked residual is below the noise floor;
   * the dense Krylov-optimum oracle compares in the A-norm relative to max(|x* - x0|_A, |x*|_A) with
-    tolerance `max(1e-6 * max(1, kappa_eff / 10), 100 * d_self)`, for every step when
+    tolerance `max(1e-6 * max(1, kappa_eff / 10), 300 * d_self)`, for every step when
     kappa_eff <= 100 and for steps k <= 5 when 100 < kappa_eff <= 1e4 (floating-point CG loses
     orthogonality: the measured deviation from the exact-arithmetic optimum grows ~30x per step at
     kappa_eff >= 1e3 and reaches 1e-3 at step 7-9 on the UNCHANGED code; the exact statement for all
@@ -49,6 +50,7 @@ TOLS = [1e-12, 1e-10, 1e-8, 1e-6, 1e-4, 1e-2, 1e-1]
 KAPPAS = [1.0, 10.0, 1e3]
 NOISE = 1e-10      # floor (relative to the first tracked residual) below which values are noise
 KNIFE = 1e-6       # relative window around the effective tolerance treated as a knife edge
+SELF_FACTOR = 300  # allowed deviation = SELF_FACTOR * measured rounding sensitivity (never below RT)
 
 
 # ----------------------------------------------------------------------------- exact transport
@@ -190,8 +192,8 @@ class Real:
         # rounding-equivalent variants of the same system (used only to MEASURE what double rounding
         # permits on this input): entries of A and P moved by one ulp (Hermitian symmetry kept)
         prng = np.random.default_rng(12345 + self.n)
-        self.A_ulp = self._ulp(self.A, prng)
-        self.P_ulp = None if self.P is None else self._ulp(self.P, prng)
+        self.A_ulp = {v: self._ulp(self.A, prng) for v in ("ulp", "ulp2", "ulp3")}
+        self.P_ulp = {v: (None if self.P is None else self._ulp(self.P, prng)) for v in ("ulp", "ulp2", "ulp3")}
 
     @staticmethod
     def _ulp(M, prng):
@@ -202,7 +204,7 @@ class Real:
     def pop(self, variant=None):
         if self.P is None:
             return None
-        P = self.P_ulp if variant == "ulp" else self.P
+        P = self.P_ulp[variant] if variant in self.P_ulp else self.P
         if self.c["pkind"] == "jacobi":
             return cola.ops.Diagonal(np.diag(P).copy())
         return cola.ops.Dense(P)
@@ -225,8 +227,8 @@ class Real:
         elif variant == "rev":     # same product, other summation order
             A = self.A
             Aop = cola.ops.LinearOperator(self.dtype, (self.n, self.n), matmat=lambda X: A[:, ::-1] @ X[::-1])
-        elif variant == "ulp":
-            Aop = cola.PSD(cola.ops.Dense(self.A_ulp))
+        elif variant in self.A_ulp:
+            Aop = cola.PSD(cola.ops.Dense(self.A_ulp[variant]))
         else:
             Aop = cola.PSD(cola.ops.Dense(self.A))
         if via_inv:
@@ -397,7 +399,7 @@ class Checker:
         dx = [np.zeros(R.m) for _ in range(K + 1)]
         derr = [np.zeros(len(sweep[k]["errors"])) for k in range(K + 1)]
         unstable = [False] * (K + 1)
-        for variant in ("rev", "ulp"):
+        for variant in ("rev", "ulp", "ulp2", "ulp3"):
             for k in range(K + 1):
                 rv = R.run(k, variant=variant)
                 self.stats["evaluations"] += 1
@@ -406,7 +408,19 @@ class Checker:
                     continue
                 dx[k] = np.maximum(dx[k], col_devs(rv["X"], sweep[k]["X"], X0))
                 derr[k] = np.maximum(derr[k], [rel(a, b) for a, b in zip(rv["errors"], sweep[k]["errors"])])
-        return {"dx": dx, "derr": derr, "unstable": unstable}
+        # rounding is amplified from step to step: take the sensitivity of the next two steps as well
+        # (4 samples of a heavy-tailed quantity; the floor RT is what catches defects)
+        # ... and of all columns (same operator, independent draws of the rounding)
+        dx2 = [np.full(R.m, float(np.max(np.stack(dx[k:k + 3])))) for k in range(K + 1)]
+        eK = derr[K]
+        derr2 = []
+        for k in range(K + 1):
+            d = derr[k].copy()
+            for i in range(len(d)):
+                hi = [eK[t] for t in (i + 1, i + 2) if t < len(eK)]
+                d[i] = max([d[i]] + hi)
+            derr2.append(d)
+        return {"dx": dx2, "derr": derr2, "unstable": unstable}
 
     # ---- property checks on the real code alone (no model involved)
     def real_property_checks(self, c, R, sweep, sd=None):
@@ -451,6 +465,19 @@ class Checker:
                     bad.append({"clause": "stops-as-soon-as", "step": k, "detail": "all columns below their tolerance but the iteration went on"})
                 if k == final_steps and k < K and above:
                     bad.append({"clause": "stops-not-before", "step": k, "detail": "a column is above its tolerance but the iteration stopped before max_iters"})
+        # "reports the residual history": entry i of errors is the tracked residual after step i + 2 (the
+        # last one after the final step), i.e. mean_j |b_j - A x_j| / |b_j| up to rounding of the recurrence
+        if live and not degenerate and len(live) == m:
+            for k, rk in enumerate(sweep):
+                s = rk["iterations"] - 1
+                if s != k or s < 1 or len(rk["errors"]) != s:
+                    continue
+                true_mean = float(np.mean([np.linalg.norm(R.B[:, j] - A @ rk["X"][:, j]) / mult[j] for j in range(m)]))
+                rep = float(rk["errors"][-1])
+                scale_h = float(np.mean((mult + r0n) / mult))
+                if abs(rep - true_mean) > 1e-3 * max(rep, true_mean) + 1e4 * slack * scale_h:
+                    bad.append({"clause": "history", "step": k, "reported": rep, "true_mean_relative_residual": true_mean})
+                    break
         # Krylov optimum
         if kap <= 1e4:
             for j in range(m):
@@ -470,7 +497,7 @@ class Checker:
                         # d_self is relative to the 2-norm scale; convert generously to the A-norm scale
                         s2 = max(np.linalg.norm(rk["X"][:, j]), np.linalg.norm(X0[:, j]))
                         conv = math.sqrt(np.linalg.norm(A, 2)) * s2 / ref if ref > 0 else 0.0
-                        lim = max(lim, 100 * sd["dx"][k][j] * conv)
+                        lim = max(lim, SELF_FACTOR * sd["dx"][k][j] * conv)
                     self.stats["worst_oracle"] = max(self.stats["worst_oracle"], dx)
                     self.stats["worst_oracle_ratio"] = max(self.stats["worst_oracle_ratio"], dx / lim)
                     if dx > lim:
@@ -516,14 +543,14 @@ class Checker:
                 d = min(s, exp_s)
                 unc = 0.0
                 if d >= 2 and d - 2 < len(sd["derr"][k]):
-                    unc = 100 * float(sd["derr"][k][d - 2])   # measured rounding uncertainty of the residual at step d
+                    unc = SELF_FACTOR * float(sd["derr"][k][d - 2])   # measured rounding uncertainty of the residual at step d
                 if sd["unstable"][k] or self.knife(L, d, unc):
                     self.stats["knife_edge"] += 1
                     continue
                 diffs.append({"what": "step count", "max_iters": k, "real_steps": s, "model_steps": exp_s})
                 continue
             self.stats["iter_compared"] += 1
-            allow = 100 * sd["dx"][k]
+            allow = SELF_FACTOR * sd["dx"][k]
             if np.any(allow > rt):
                 self.stats["iter_loose"] += 1
             ok, w = cols_close(rk["X"], L["trace"][exp_s]["X"], rt, ref=X0, allow=allow)
@@ -536,7 +563,7 @@ class Checker:
             ee = expected_errors(tr_res, exp_s)
             if len(ee) != len(rk["errors"]):
                 diffs.append({"what": "len(errors)", "max_iters": k, "real": len(rk["errors"]), "model": len(ee)})
-            elif not all(res_close(a, b, e0, rt, 100 * d) for a, b, d in zip(rk["errors"], ee, sd["derr"][k])):
+            elif not all(res_close(a, b, e0, rt, SELF_FACTOR * d) for a, b, d in zip(rk["errors"], ee, sd["derr"][k])):
                 diffs.append({"what": "errors", "max_iters": k, "real": list(map(float, rk["errors"])), "model": ee,
                               "self_dev": list(map(float, sd["derr"][k]))})
         # the model's own final answer at max_iters = K
@@ -629,12 +656,55 @@ def neighbourhood(c, rng):
     return out
 
 
+def merge_stats(dst, src):
+    for k, v in src.items():
+        if isinstance(v, set):
+            dst[k] |= v
+        elif isinstance(v, dict):
+            for kk, vv in v.items():
+                dst[k][kk] = dst[k].get(kk, 0) + vv
+        elif isinstance(v, list):
+            dst[k] = (dst[k] + v)[:3]
+        elif k.startswith("worst"):
+            dst[k] = max(dst[k], v)
+        else:
+            dst[k] += v
+
+
+def _work(args):
+    """one case in a worker process: (id, real_bad, diffs, stats)"""
+    c, ans = args
+    chk = Checker(None)
+    try:
+        real_bad, diffs = chk.one_case(c, ans)
+    except Exception as ex:  # machinery failure: surface it in the parent
+        import traceback
+        return c["id"], None, traceback.format_exc(), chk.stats
+    return c["id"], real_bad, diffs, chk.stats
+
+
+def tiny_rhs_probe():
+    """0 < |b| < 1e-40: do_safe_div divides by the clamped 1e-40 but the result is multiplied by |b|"""
+    A = np.diag([2.0, 3.0])
+    Aop = cola.PSD(cola.ops.Dense(A))
+    b = np.array([1.0, 1.0])
+    out = {}
+    for s in (1e-30, 1e-45):
+        x, info = real_cg(Aop, s * b, None, None, 1e-10, 10)
+        out[str(s)] = {"x/s": [float(v) for v in np.asarray(x) / s], "iterations": int(info["iterations"])}
+    out["expected x/s"] = [0.5, 1.0 / 3.0]
+    out["defect_present"] = bool(np.linalg.norm(np.array(out["1e-45"]["x/s"]) - np.array([0.5, 1 / 3])) > 1e-6)
+    return out
+
+
 def run(ctx):
+    import multiprocessing as mp
     gate, gate_err = None, None
     try:
         gate = common.lean_gate(ctx, MODULE)
     except common.LeanGateError as ex:
         gate_err = str(ex)
+        print("lean gate failed:\n" + gate_err[-1500:], flush=True)
     rng = random.Random(ctx.seed * 104729 + 12)
     chk = Checker(ctx)
     t0 = time.time()
@@ -644,15 +714,26 @@ def run(ctx):
         for i, c in enumerate(cases):
             c["id"] = i
     else:
-        ncases = 260 if not ctx.thorough else 6000
+        ncases = 1200 if not ctx.thorough else 12000
         nmax = 12 if not ctx.thorough else 40
-        cases = [gen_case(rng, i, nmax if (not ctx.thorough or i % 10) else 12) for i in range(ncases)]
+        cases = [gen_case(rng, i, nmax if (not ctx.thorough or i % 8 == 0) else 12) for i in range(ncases)]
     answers = run_driver([lean_input(c) for c in cases])
     t_lean = time.time() - t0
+    nproc = min(16, os.cpu_count() or 1, max(1, len(cases)))
+    jobs = [(c, answers[c["id"]]) for c in cases]
+    if nproc > 1 and len(cases) > 4:
+        with mp.get_context("fork").Pool(nproc) as pool:
+            results = pool.map(_work, jobs, chunksize=max(1, len(jobs) // (nproc * 8)))
+    else:
+        results = [_work(j) for j in jobs]
+    byid = {c["id"]: c for c in cases}
     n_real_viol = 0
     n_corr = 0
-    for c in cases:
-        real_bad, diffs = chk.one_case(c, answers[c["id"]])
+    for cid, real_bad, diffs, stats in sorted(results, key=lambda r: r[0]):
+        merge_stats(chk.stats, stats)
+        c = byid[cid]
+        if real_bad is None:
+            raise RuntimeError(f"check machinery failed on case {cid}:\n{diffs}")
         if real_bad:
             n_real_viol += 1
             if n_real_viol <= 3:
@@ -678,6 +759,9 @@ def run(ctx):
                 common.violation(ctx, {"broken": "correspondence real cg vs Lean model (Model/CG.lean)", "case": strip(c), "diffs": diffs[:5]}, no_input=True)
     if gate_err is not None and not ctx.violations:
         common.violation(ctx, {"broken": f"Lean gate of {MODULE}", "detail": gate_err[-3000:]}, no_input=True)
+    tiny = tiny_rhs_probe()
+    if tiny["defect_present"] and "tiny-rhs-norm" in common.known_clauses(ctx.prop):
+        common.known_finding(ctx, "tiny-rhs-norm", "0 < |b| < 1e-40: system divided by the clamped 1e-40, result multiplied by |b|")
     st = chk.stats
     cov = {
         "evaluations": st["evaluations"],
@@ -685,13 +769,16 @@ def run(ctx):
         "rule": ("HPD systems A = Q diag(lambda) Q^H from one random.Random(seed) stream: real and complex, n = 1..%d, kappa in {1, 10, 1e3}, "
                  "spectra geometric / linear / clustered / exactly repeated / two-valued, operator scale 1e-2..1e2, 1-4 columns with norms "
                  "10^U(-6,6), zero columns, few-eigenvector columns, x0 in {None, random, exact solution}, P in {None, Jacobi (Diagonal), dense SPD}, "
-                 "tol in {1e-12..1e-1}, max_iters = 2n (40%%) or random in 0..2n; the real cg is run for EVERY max_iters = 0..K and each run is "
-                 "compared with the model's trace; distinct = canonical JSON of the bit-exact inputs; non-trivial = n >= 2 and >= 1 step"
-                 % (12 if not ctx.thorough else 40)),
+                 "tol in {1e-12..1e-1}, max_iters = 2n (50%%) or random in 0..2n; the real cg is run for EVERY max_iters = 0..K (plus two "
+                 "rounding-equivalent variants each, a counting-operator run, inv(A, CG) for a quarter, scaled right-hand sides) and each run is "
+                 "compared with the model's trace; evaluations = runs of the real cg; distinct = canonical JSON of the bit-exact inputs; "
+                 "non-trivial = n >= 2 and >= 1 step" % (12 if not ctx.thorough else 40)),
         "compare": "tol",
         "compare_rule": __doc__.split("Tolerance rule", 1)[1],
-        "cases": st["cases"], "iterates_compared": st["iter_compared"], "knife_edge_skips": st["knife_edge"],
-        "worst_relative_iterate_deviation": st["worst_x"], "worst_oracle_anorm_deviation": st["worst_oracle"],
+        "cases": st["cases"], "iterates_compared": st["iter_compared"], "iterates_compared_with_measured_tolerance": st["iter_loose"],
+        "knife_edge_skips": st["knife_edge"],
+        "worst_relative_iterate_deviation": st["worst_x"], "worst_iterate_deviation_over_allowed": st["worst_x_ratio"],
+        "worst_oracle_anorm_deviation": st["worst_oracle"], "worst_oracle_deviation_over_allowed": float(st["worst_oracle_ratio"]),
         "oracle_checked": st["oracle_checked"], "oracle_skipped_cases": st["oracle_skipped"], "scale_checked": st["scale_checked"],
         "zero_columns": st["zero_cols"], "via_inv": st["via_inv"],
         "dist_n": st["n"], "dist_kappa": st["kappa"], "dist_steps_k": st["k"], "dist_columns": st["columns"],
@@ -699,13 +786,16 @@ def run(ctx):
         "dist_tol": st["tol"], "stop_reasons": st["stop"], "model_branches_hit": st["branches"],
         "samples": st["samples"], "lean_driver_wall_s": round(t_lean, 1),
         "real_violations": n_real_viol, "correspondence_disagreements": n_corr,
+        "observations": {"tiny_rhs_norm_below_1e-40 (outside the stream; hypothesis hb of C12_optimal / hB of C12_scale)": tiny},
     }
     common.write_evidence(ctx, gate, cov, assumptions=[
         "theorems are about exact real/complex arithmetic (RCLike instance of the model); the IEEE run of the same model text is what the correspondence compares",
+        "C12_optimal / C12_scale hold for columns with |b| >= 1e-40 while no guard (1e-40 thresholds) is active; for 0 < |b| < 1e-40 the code and the model deviate from the property (see observations)",
+        "a zero column with x0 != 0 has no relative tolerance (|b| = 0): the code iterates on x0 / 1e-40 and returns exactly 0; the stops-as-soon-as clause leaves such cases out",
         "AdaNysPrecond (randomised Nystrom preconditioner) is not exercised; any Hermitian positive-definite P is covered by the theorems and dense SPD P by the stream",
-        "condition numbers above 1e3 and sizes above 12 (quick) / 40 (thorough) are covered by the theorems only",
+        "condition numbers above 1e3 and sizes above 12 (quick) / 40 (thorough) are covered by the theorems only; the Krylov-optimum oracle is applied at every step for kappa_eff <= 100 and at steps <= 5 above",
     ])
     print(json.dumps({"cases": st["cases"], "evaluations": st["evaluations"], "distinct_nontrivial": len(st["nontrivial"]),
                       "real_violations": n_real_viol, "correspondence": n_corr, "knife": st["knife_edge"],
-                      "worst_x": st["worst_x"], "worst_oracle": st["worst_oracle"], "gate": (gate or {}).get("obligations"),
-                      "wall": round(ctx.wall(), 1)}))
+                      "worst_x_ratio": st["worst_x_ratio"], "worst_oracle_ratio": float(st["worst_oracle_ratio"]),
+                      "gate": (gate or {}).get("obligations"), "wall": round(ctx.wall(), 1)}))
